@@ -162,7 +162,8 @@ def run_case(seed, dynamic=False, family=None):
             ids = sorted(o.trials, key=int)
             return dict(st=[o.trials[i].status for i in ids], ongoing=[(int(t[1:]), int(tr.trial_id)) for t, tr in o.ongoing_trials.items()],
                         eo=[int(x) for x in o.end_order], rq=[int(x) for x in o._retry_queue])
-        for _ in range(600):
+        cap = max(600, 60 + 14 * (cfg["max_retries"] + 1) * len(all_combos(full)))
+        for _ in range(cap):
             if len(stopped) == W: break
             if not dynamic and rng.random() < 0.03 and not held:
                 o.save(); o = mk(); o.reload(); ops.append(("reload",)); obs.append((("none",), snap())); continue
@@ -218,7 +219,7 @@ def run_case(seed, dynamic=False, family=None):
             elif want and first is not None and got[0] != want[0] and not dynamic:
                 viol = ("first-is-defaults", "first trial %r is not the all-defaults combination %r" % (dict(got[0]), dict(want[0])))
         elif not exc:
-            viol = ("no-stop", "the grid search did not reach STOPPED within 600 operations (%d trials)" % len(o.trials))
+            viol = ("no-stop", "the grid search did not reach STOPPED within %d operations (%d trials, %d combinations)" % (cap, len(o.trials), len(all_combos(full))))
         return dict(cfg, sp=sp), ops, obs, viol, dict(seed=seed, dynamic=dynamic, family=family, W=W, space=[(h.name, type(h).__name__) for h in full.space], ntrials=len(o.trials))
     finally:
         shutil.rmtree(d, ignore_errors=True)
